@@ -67,9 +67,22 @@ def _opt_case(rng, t, length):
         else: c.append("mk %d %d" % (i, k))
         present[i] = True
 
+    env = set()
     for _ in range(length):
         k = rng.randrange(4)
         r = rng.random()
+        if t in ENV_TYPES and rng.chance(0.07):
+            q = rng.random()
+            if q < 0.40:
+                nm = rng.pick("abc"); c.append("env_set %s %d" % (nm, k)); env.add(nm)
+            elif q < 0.50:
+                nm = rng.pick("abc"); c.append("env_unset %s" % nm); env.discard(nm)
+            else:
+                i = fresh(T)
+                nm = rng.pick(sorted(env)) if env and rng.chance(0.75) else rng.pick("abc")
+                c.append("env_get %d %s" % (i, nm)); present[i] = True
+                if rng.chance(0.8): c.append("get %d" % i)
+            continue
         if not have(T) or r < 0.06:
             construct(fresh(T), k)
         elif not have(U) and r < 0.30 or r < 0.10:
@@ -86,12 +99,6 @@ def _opt_case(rng, t, length):
             else: op, j = "newc", rng.pick(others)
             c.append("%s %d %d" % (op, i, j))
             if present[j]: present[i] = True
-        elif r < 0.24 and t in ENV_TYPES:
-            q = rng.random()
-            if q < 0.45: c.append("env_set %s %d" % (rng.pick("abc"), k))
-            elif q < 0.60: c.append("env_unset %s" % rng.pick("abc"))
-            else:
-                i = fresh(T); c.append("env_get %d %s" % (i, rng.pick("abc"))); present[i] = True
         elif r < 0.30:
             u = pick(U)
             q = rng.random()
